@@ -233,6 +233,18 @@ func (s *Synth) Instr(st wdc.Arch) bool {
 	dbr := uint32(st.DBR) << 16
 	switch oi.Md {
 	case wdc.MImp, wdc.MAcc:
+		// returns: the address pulled from the stack is solved to an edge value in half of the cases (RTS/RTL add one to it:
+		// $FFFF wraps inside the bank)
+		if (op == 0x60 || op == 0x6B || op == 0x40) && !st.E && s.D.Intn("ret-edge", 2) == 0 {
+			skip := uint16(1) // RTS, RTL: S+1 = PCL
+			if op == 0x40 {
+				skip = 2 // RTI: S+1 = P
+			}
+			v := []uint16{0xFFFF, 0xFFFE, 0x0000, 0x00FF, 0xFEFF, 0x7FFF}[s.D.Intn("ret-addr", 6)]
+			s.put(uint32(st.S+skip), byte(v))
+			s.put(uint32(st.S+skip+1), byte(v>>8))
+			cls = "return-address-edge"
+		}
 	case wdc.MImmM, wdc.MImmX, wdc.MImm8, wdc.MImm16:
 		v := Draw16(s.D, "imm")
 		if st.P&wdc.FD != 0 && (oi.Mn == "adc" || oi.Mn == "sbc") && s.D.Intn("imm-bcd", 4) != 0 {
